@@ -4,8 +4,8 @@
 //! sockets, all driven from ONE thread (plus the worker), so every step is
 //! sequenced by what was actually read ("read-ack"), never by sleeping.
 //!
-//! usage: c18bb <mode> <scenario> <seed> [buffer_size]
-//!   scenarios: exact | bp_c2b | bp_b2c | c_fin | b_fin | c_fin_bp | b_fin_bp | c_fin_cross
+//! usage: c18bb <mode> <scenario> <seed> [buffer_size]     modes: plain | send | expect | relay | ws (HTTP listener, Upgrade: websocket, then the upgraded pipe)
+//!   scenarios: exact | bp_c2b | bp_b2c | c_fin | b_fin | c_fin_bp | b_fin_bp | c_fin_cross | c_fin_wait
 //! prints `viol <class> <text>`, `note <text>`, and `obs done` when the run completed.
 use std::{
     io::{ErrorKind, Read, Write},
@@ -19,9 +19,9 @@ use sozu_command_lib::{
     channel::Channel,
     config::{ConfigBuilder, FileConfig, ListenerBuilder},
     proto::command::{
-        request::RequestType, ActivateListener, AddBackend, Cluster, ListenerType, LoadBalancingParams,
-        ProxyProtocolConfig, Request, RequestTcpFrontend, ResponseStatus, ServerConfig, SocketAddress, Status,
-        WorkerRequest, WorkerResponse,
+        request::RequestType, ActivateListener, AddBackend, Cluster, ListenerType, LoadBalancingParams, PathRule,
+        ProxyProtocolConfig, Request, RequestHttpFrontend, RequestTcpFrontend, ResponseStatus, RulePosition,
+        ServerConfig, SocketAddress, Status, WorkerRequest, WorkerResponse,
     },
     scm_socket::{Listeners, ScmSocket},
     state::ConfigState,
@@ -263,7 +263,31 @@ fn main() {
         "relay" => Some(ProxyProtocolConfig::RelayHeader as i32),
         _ => None,
     };
-    let setup = vec![
+    let setup = if mode == "ws" {
+        // an HTTP listener: the session becomes a Pipe after the backend's 101 answer to an Upgrade request
+        vec![
+            RequestType::AddHttpListener(ListenerBuilder::new_http(fa.clone()).to_http(None).unwrap()),
+            RequestType::ActivateListener(ActivateListener { address: fa.clone(), proxy: ListenerType::Http.into(), from_scm: false }),
+            RequestType::AddCluster(Cluster { cluster_id: "c".into(), ..Default::default() }),
+            RequestType::AddHttpFrontend(RequestHttpFrontend {
+                cluster_id: Some("c".into()),
+                address: fa.clone(),
+                hostname: "x.test".into(),
+                path: PathRule::prefix("/".to_string()),
+                position: RulePosition::Tree.into(),
+                ..Default::default()
+            }),
+            RequestType::AddBackend(AddBackend {
+                cluster_id: "c".into(),
+                backend_id: "c-0".into(),
+                address: back.into(),
+                load_balancing_parameters: Some(LoadBalancingParams::default()),
+                sticky_id: None,
+                backup: None,
+            }),
+        ]
+    } else {
+        vec![
         RequestType::AddTcpListener(ListenerBuilder::new_tcp(fa.clone()).to_tcp(None).unwrap()),
         RequestType::ActivateListener(ActivateListener { address: fa.clone(), proxy: ListenerType::Tcp.into(), from_scm: false }),
         RequestType::AddCluster(Cluster { cluster_id: "c".into(), proxy_protocol: pp, ..Default::default() }),
@@ -276,7 +300,8 @@ fn main() {
             sticky_id: None,
             backup: None,
         }),
-    ];
+        ]
+    };
     for (i, r) in setup.into_iter().enumerate() {
         match send(&mut main_ch, &format!("S-{i}"), r, Duration::from_secs(20)) {
             Some(resp) if resp.status == ResponseStatus::Ok as i32 => {}
@@ -299,6 +324,14 @@ fn main() {
     client.set_nonblocking(true).unwrap();
     let client_addr = client.local_addr().unwrap();
     let mut client = client;
+    if mode == "ws" {
+        let req = b"GET /chat HTTP/1.1\r\nHost: x.test\r\nConnection: Upgrade\r\nUpgrade: websocket\r\nSec-WebSocket-Key: dGhlIHNhbXBsZSBub25jZQ==\r\nSec-WebSocket-Version: 13\r\n\r\n";
+        let mut at = 0;
+        let t0 = Instant::now();
+        while at < req.len() && t0.elapsed() < DEADLINE {
+            pump_write(&mut client, req, &mut at);
+        }
+    }
     let hdr_in: Vec<u8> = if mode == "expect" || mode == "relay" {
         let kind = rng.next() % 4;
         let mut h = if kind == 0 {
@@ -377,6 +410,37 @@ fn main() {
     backend.set_nodelay(true).unwrap();
     backend.set_nonblocking(true).unwrap();
     let mut p = Peers { client, backend, c_got: vec![], b_got: vec![], c_eof: false, b_eof: false };
+    if mode == "ws" {
+        // the backend reads the upgrade request and answers 101; the client reads the 101: from here on both
+        // connections are a raw byte pipe
+        let t0 = Instant::now();
+        while !p.b_got.windows(4).any(|w| w == b"\r\n\r\n") && t0.elapsed() < DEADLINE && !p.b_eof {
+            p.poll();
+            idle();
+        }
+        let head = String::from_utf8_lossy(&p.b_got).to_lowercase();
+        if !head.contains("upgrade: websocket") {
+            println!("note setup-failed the backend did not receive the upgrade request: {:?}", &head[..head.len().min(200)]);
+            return;
+        }
+        let resp = b"HTTP/1.1 101 Switching Protocols\r\nConnection: Upgrade\r\nUpgrade: websocket\r\nSec-WebSocket-Accept: s3pPLMBiTxaQ9kYGzzhZRbK+xOo=\r\n\r\n";
+        let mut at = 0;
+        while at < resp.len() && t0.elapsed() < DEADLINE {
+            pump_write(&mut p.backend, resp, &mut at);
+        }
+        while !p.c_got.windows(4).any(|w| w == b"\r\n\r\n") && t0.elapsed() < DEADLINE && !p.c_eof {
+            p.poll();
+            idle();
+        }
+        if !String::from_utf8_lossy(&p.c_got).starts_with("HTTP/1.1 101") {
+            println!("note setup-failed the client did not receive the 101 answer: {:?}", String::from_utf8_lossy(&p.c_got[..p.c_got.len().min(120)]));
+            return;
+        }
+        let hl = p.c_got.windows(4).position(|w| w == b"\r\n\r\n").unwrap() + 4;
+        let bl = p.b_got.windows(4).position(|w| w == b"\r\n\r\n").unwrap() + 4;
+        p.c_got.drain(..hl);
+        p.b_got.drain(..bl);
+    }
 
     // what the backend must see before any payload
     let prefix: Vec<u8> = match mode.as_str() {
@@ -470,6 +534,44 @@ fn main() {
                 p.until_eof(true);
             }
         }
+        "c_fin_wait" => {
+            // `printf request | nc`: the client sends, half-closes, and waits for the answer; the backend
+            // answers only once it has seen the end of the request
+            let n0 = sizes(&mut rng)[0];
+            let d = rng.bytes(n0);
+            c_sent.extend_from_slice(&d);
+            let mut at = 0;
+            let t0 = Instant::now();
+            while at < d.len() && t0.elapsed() < DEADLINE {
+                if !pump_write(&mut p.client, &d, &mut at) {
+                    break;
+                }
+                p.poll();
+            }
+            let _ = p.client.shutdown(Shutdown::Write);
+            c_fin = true;
+            let saw_fin = p.until_eof(false);
+            let complete = p.b_got.len() == prefix.len() + c_sent.len();
+            if !saw_fin {
+                println!("viol fin-not-propagated mode {mode}: the client half-closed after its request; the backend received {} of {} byte(s) and never saw the end of the stream", p.b_got.len(), prefix.len() + c_sent.len());
+            }
+            if complete {
+                // the answer, after the request is complete
+                let r = rng.bytes(2 * bufsize as usize + 17);
+                b_sent.extend_from_slice(&r);
+                let mut at = 0;
+                let t0 = Instant::now();
+                while at < r.len() && t0.elapsed() < DEADLINE {
+                    if !pump_write(&mut p.backend, &r, &mut at) {
+                        break;
+                    }
+                    p.poll();
+                }
+                let _ = p.backend.shutdown(Shutdown::Write);
+                b_fin = true;
+                p.until_eof(true);
+            }
+        }
         "b_fin" | "b_fin_bp" => {
             let lead = rng.bytes(10);
             c_sent.extend_from_slice(&lead);
@@ -528,7 +630,7 @@ fn main() {
             first_diff(&b_sent, &p.c_got)
         );
     }
-    let m = if mode == "plain" { "pipe" } else { mode.as_str() };
+    let m = if mode == "plain" || mode == "ws" { "pipe" } else { mode.as_str() };
     if !c_fin && !b_fin {
         // nobody closed: everything must have arrived (the transfers are read-acked)
         if !ok || p.b_got.len() != want_b.len() || p.c_got.len() != b_sent.len() {
